@@ -59,12 +59,19 @@ Definition wsame_item (a b : wleaf) : bool :=
   | _, _ => wleaf_eqb a b
   end.
 
+(** What follows an undefined nonterminal inside a word: nothing (the nonterminal takes the rest of
+    the word; check.rs rejects anything else as UnboundedMatchable). *)
+Definition eps_only (k : rx wleaf) : bool :=
+  nullable k && match lf k with [] => true | _ :: _ => false end.
+
 Definition wpoint_ok (mv : list (wleaf * rx wleaf)) : bool :=
   all_pairs (fun a b => match a, b with
                         | WLit t d l, WLit t' d' l' =>
                             negb (String.eqb t t') || (option_eqb String.eqb d d' && N.eqb l l')
+                        | WCmd c l, WCmd c' l' => negb (String.eqb c c') || N.eqb l l'
                         | _, _ => true
-                        end) (map fst mv).
+                        end) (map fst mv)
+  && forallb (fun ak => match fst ak with WAny => eps_only (snd ak) | _ => true end) mv.
 
 Definition prefix_free2 (s t : string) : bool :=
   String.eqb s t || negb (String.prefix s t || String.prefix t s).
@@ -108,6 +115,15 @@ Definition C01_domain (e : expr) : bool :=
   forallb word_ok (subwords_of (tr e))
   && explore leaf_eqb same_item point_ok explore_fuel [start e] [].
 
+(** Diagnostic only (not part of the domain's definition, which contains it): inside every
+    within-word expression nothing follows an undefined nonterminal.  check.rs rejects the other
+    grammars as UnboundedMatchable; the C01 check counts accepted grammars for which this is false. *)
+Definition wtail_point (mv : list (wleaf * rx wleaf)) : bool :=
+  forallb (fun ak => match fst ak with WAny => eps_only (snd ak) | _ => true end) mv.
+
+Definition C01_tail_only (e : expr) : bool :=
+  forallb (fun x => explore wleaf_eqb wsame_item wtail_point explore_fuel [[x]] []) (subwords_of (tr e)).
+
 (** *** The part that depends on the commands' output *)
 Definition wtokens (en : env) (x : rx wleaf) : list string :=
   flat_map (fun a => match a with
@@ -116,15 +132,31 @@ Definition wtokens (en : env) (x : rx wleaf) : list string :=
                      | WAny => []
                      end) (leaves x).
 
-Fixpoint dedup_str (l : list string) : list string :=
-  match l with
-  | [] => []
-  | a :: r => let d := dedup_str r in if mem_str a d then d else a :: d
+(** where a text that can be a piece of a word comes from: a literal, or the output of a command *)
+Inductive wsrc := SLit | SCmd (c : string).
+
+Definition wsrc_eqb (a b : wsrc) : bool :=
+  match a, b with
+  | SLit, SLit => true
+  | SCmd c, SCmd c' => String.eqb c c'
+  | _, _ => false
   end.
 
+Definition wtokens_src (en : env) (x : rx wleaf) : list (wsrc * string) :=
+  flat_map (fun a => match a with
+                     | WLit t _ _ => [(SLit, t)]
+                     | WCmd c _ => map (fun o => (SCmd c, o)) (candidates en c)
+                     | WAny => []
+                     end) (leaves x).
+
+(** two pieces: the same text from the same source, or texts neither of which begins the other *)
+Definition tok_free2 (p q : wsrc * string) : bool :=
+  if String.eqb (snd p) (snd q) then wsrc_eqb (fst p) (fst q)
+  else negb (String.prefix (snd p) (snd q) || String.prefix (snd q) (snd p)).
+
 Definition C01_env_ok (e : expr) (en : env) : bool :=
-  forallb (fun x => let ts := dedup_str (wtokens en x) in
-                    forallb nonempty ts && all_pairs prefix_free2 ts)
+  forallb (fun x => let ts := wtokens_src en x in
+                    forallb (fun p => nonempty (snd p)) ts && all_pairs tok_free2 ts)
           (subwords_of (tr e))
   && forallb (fun a => match a with
                        | LCmd c _ => forallb nonempty (candidates en c)
